@@ -33,7 +33,10 @@ RULE = (
     "duplicated rdataset lines), big zones (250..510 names written in one transaction with the glue before its cut, so "
     "that update_glue_flag walks full B-tree leaves; cut removed and re-added later), compared at the commit and on bounds queries with the model and the definition; all "
     "permutations of small record sets as load order, split over two transactions at every point; bounds queried "
-    "with every name of <= 3 labels over a 3-letter alphabet plus in-zone and out-of-zone extras; a malformed "
+    "with every name of <= 3 labels over a 3-letter alphabet plus in-zone and out-of-zone extras; a "
+    "class dimension (CH zones), the public predicates Node.is_origin/is_delegation/is_glue/is_origin_or_glue, bounds given a str, "
+    "the Bounds.name field, Delegations.get_delegation/is_glue called directly, reader.iterate_names()/zone.keys(), older "
+    "committed versions re-read at the end of the history, transactions abandoned by an exception; a malformed "
     "stream (names outside the origin, over-long names, mixed case, SOA off the apex, first writer not a "
     "replacement, empty and rolled-back transactions); a case is non-trivial if its item list is new"
 )
@@ -1141,7 +1144,7 @@ def replay(ctx: Ctx, obj: dict):
 
 
 LEVEL = {
-    "text": "Lean 4 theorems (no sorry, axioms propext/Classical.choice/Quot.sound only) over an executable model of dns/btreezone.py (WritableVersion.put_rdataset/delete_rdataset/delete_node, _maybe_cow_with_name with the per-version changed set, update_glue_flag, Delegations.get_delegation/is_glue, ImmutableVersion.bounds, the thin transaction layer) on a sorted association list keyed by names in the canonical order of Name.fullcompare (order laws - total order, antisymmetry on lower-case names, convexity of subtrees, ancestor chains, monotonicity of common-label counts - are proved from the model of fullcompare itself). Proved at full strength, with no guard, for the code as it is now (model variant `intended`), for ALL histories of transactions (commit, rollback, replacement, failing operations, initial load in any record order) over legal names, relativized and absolute zones, and ALL query names: (1) iteration_canonical - node store and index strictly increasing; (2) flags_eq_spec / index_eq_spec - every node flag and the delegation index equal the functions of zone content given by the documentation, nested cuts included; (3) bounds_eq_spec - bounds(name) equals its specification (nearest non-occluded neighbours, closest encloser counting empty non-terminals, at-or-below-delegation bit). The `_partial` theorems state the same for any other variant of the five decision points (in particular the code before the repairs) under decidable guards, with kernel-checked counter-examples showing each former defect. Tie: whole-history differential correspondence with the `intended` variant observed after every operation and every commit and on zones loaded from text; the oracle's recompute-from-definition is compared with the Lean specification itself on every history; the theorems' guards (identically true for `intended`) are evaluated by the model along every history and the property is required of the implementation wherever they hold, i.e. everywhere.",
+    "text": "Lean 4 theorems (no sorry, axioms propext/Classical.choice/Quot.sound only) over an executable model of dns/btreezone.py (WritableVersion.put_rdataset/delete_rdataset/delete_node, _maybe_cow_with_name with the per-version changed set, update_glue_flag, Delegations.get_delegation/is_glue, ImmutableVersion.bounds, the thin transaction layer) on a sorted association list keyed by names in the canonical order of Name.fullcompare (order laws - total order, antisymmetry on lower-case names, convexity of subtrees, ancestor chains, monotonicity of common-label counts - are proved from the model of fullcompare itself). Proved at full strength, with no guard, for the code as it is now (model variant `intended`), for ALL histories of transactions (commit, rollback, replacement, failing operations, initial load in any record order) over legal names, relativized and absolute zones, and ALL query names: (1) iteration_canonical - node store and index strictly increasing; (2) flags_eq_spec / index_eq_spec - every node flag and the delegation index equal the functions of zone content given by the documentation, nested cuts included; (3) bounds_eq_spec - bounds(name) equals its specification (nearest non-occluded neighbours, closest encloser counting empty non-terminals, at-or-below-delegation bit); (4) derived_state_function_of_content - two committed states with the same content reached by ANY two histories (load orders, detours, transaction boundaries) are equal, nodes, flags and index; (5) get_delegation_eq_spec - Delegations.get_delegation returns the unique delegation point at or above the name with the strictly-below bit, or (None, False). The `_partial` theorems state the same for any other variant of the five decision points (in particular the code before the repairs) under decidable guards, with kernel-checked counter-examples showing each former defect. Tie: whole-history differential correspondence with the `intended` variant observed after every operation and every commit and on zones loaded from text; the oracle's recompute-from-definition is compared with the Lean specification itself on every history; the theorems' guards (identically true for `intended`) are evaluated by the model along every history and the property is required of the implementation wherever they hold, i.e. everywhere.",
     "note": "Trusted: Lean kernel; the statements in lean/Props/C20.lean and the specification/guard definitions in lean/Model/BTreeZone.lean; the correspondence harness and its generators (differential testing bounds the tie); the B-tree is replaced by a sorted association list (its refinement is property C19); owner-name case is canonicalised (lower-cased keys). Readings fixed: neighbours and closest encloser are taken among non-occluded names; bounds presupposes an apex node (the code asserts it). Six C20 defects of the pinned tree (D15, D16 nested cuts, D19, D20, CNAME put at a cut, $ORIGIN load) were genuine violations; all are repaired in /repo (KNOWN_FINDINGS.json `fixed`), their witnesses stay in corpus/C20 as regression cases, and nothing is recorded as a known finding any more: a tree in which one of them returns is reported as VIOLATION with a concrete history.",
     "technique": "Lean 4 proof (invariant over histories with a frame theorem for the specification, refinement of cursor walks on a sorted list to filters/maps, order laws of the canonical name order derived from the model of fullcompare) + model-vs-implementation correspondence + recompute-from-definition oracle + guard/implementation implication check",
     "design_ref": "DESIGN.md §7 C20",
